@@ -638,6 +638,8 @@ fn run_record(seed: u64, nvalues: usize, outp: &str) {
         if e.err.is_some() {
             continue;
         }
+        // what the writer reports as linked-in (not copied) payload bytes: callers subtract it when sizing buffers
+        writeln!(out, "{}", json!({"op":"wend","zc":e.zero_copy_len})).unwrap();
         let utf8 = trees.iter().all(all_utf8);
         let mut input = e.bytes.clone();
         input.extend_from_slice(&[0x5a, 0x01]);
